@@ -7,7 +7,7 @@
 (* the Go harness replays against tls.Marshal / tls.Unmarshal on types it  *)
 (* builds at run time with reflect.StructOf.                               *)
 (***************************************************************************)
-EXTENDS TLSCodec, Integers, Json, TLC, IOUtils
+EXTENDS Mutations, Json, TLC, IOUtils
 
 CONSTANT Tier     \* "quick" | "thorough": which kind lists / families are enumerated
 
@@ -45,7 +45,7 @@ QuickKinds == <<
   KVec(N(0), N(255), <<0, 1, 255, 256>>, 20), KVec(N(1), N(255), <<1, 0, 255>>, 30),
   KVec(N(0), N(256), <<0, 255, 256, 257>>, 40), KVec(N(2), N(4), <<2, 1, 4, 5>>, 50),
   KVec(N(0), N(65535), <<0, 3>>, 60), KVec(N(0), MaxNum(3), <<0, 2>>, 70), KVec(N(0), PowNum(3), <<0, 2>>, 80),
-  KVec(N(0), PowNum(7), <<0, 2>>, 90) >>
+  KVec(N(0), MaxNum(8), <<0, 2>>, 90) >>
 MoreKinds == <<
   KES(4), KES(5), KES(6), KES(7),
   KEM(N(255)), KEM(N(65535)), KEM(MaxNum(3)), KEM(MaxNum(4)), KEM(PowNum(4)), KEM(MaxNum(5)), KEM(PowNum(5)),
@@ -53,7 +53,7 @@ MoreKinds == <<
   KArr(32, 13),
   KVec(N(0), MaxNum(4), <<0, 2>>, 100), KVec(N(0), PowNum(4), <<0, 2>>, 110), KVec(N(0), MaxNum(5), <<0, 2>>, 120),
   KVec(N(0), PowNum(5), <<0, 2>>, 130), KVec(N(0), MaxNum(6), <<0, 2>>, 140), KVec(N(0), PowNum(6), <<0, 2>>, 150),
-  KVec(N(0), MaxNum(7), <<0, 2>>, 160), KVec(N(0), MaxNum(8), <<0, 2>>, 170),
+  KVec(N(0), MaxNum(7), <<0, 2>>, 160), KVec(N(0), PowNum(7), <<0, 2>>, 170),
   KVec(N(300), N(65535), <<300, 299>>, 180) >>
 K == IF Tier = "quick" THEN QuickKinds ELSE QuickKinds \o MoreKinds
 NK == Len(K)
@@ -168,24 +168,8 @@ ValOf(x) ==
                             v == VBytes(Pay(n, 3 + x.vi)) IN
                         VStruct(IF x.l = 1 THEN <<BigNVal(x.j), v>> ELSE <<v, BigNVal(x.j)>>)
 
-(* ---------- byte strings fed to Dec ---------- *)
-RECURSIVE LitPos(_, _)
-LitPos(bs, off) == IF bs = <<>> THEN {}
-                   ELSE (IF Head(bs).k = "lit" THEN (off + 1)..(off + Head(bs).n) ELSE {}) \cup LitPos(Tail(bs), off + Head(bs).n)
-ByteAt(bs, p) == Expand(Take(Drop(bs, p - 1), 1))[1]
-SetByte(bs, p, val) == Take(bs, p - 1) \o <<Lit(<<val>>)>> \o Drop(bs, p)
-Trail == B(<<170>>)
-In(m, p, d, b) == [m |-> m, p |-> p, d |-> d, b |-> b]
-
-\* valid encoding e: itself, with a trailing byte, truncated, and with every literal byte (integers, enums,
-\* selectors, length prefixes) moved by +1 / -1: length prefix +-1, > max, < min, selector without arm, ...
-Mutations(e, big) ==
-  LET L == BLen(e)
-      lits == {p \in LitPos(e, 0) : Cardinality({q \in LitPos(e, 0) : q < p}) < (IF big THEN 6 ELSE 14)} IN
-       {In("valid", 0, 0, e), In("trail", 0, 0, e \o Trail)}
-  \cup {In("trunc", k, 0, Take(e, k)) : k \in {k \in (0..9) \cup ((L - 2)..(L - 1)) : k >= 0 /\ k < L /\ (~big \/ k >= L - 2)}}
-  \cup {In("bump", p, 1, SetByte(e, p, (ByteAt(e, p) + 1) % 256)) : p \in lits}
-  \cup {In("bump", p, -1, SetByte(e, p, (ByteAt(e, p) + 255) % 256)) : p \in lits}
+(* ---------- byte strings fed to Dec (Mutations.tla) ---------- *)
+Mutations(e, big) == MutationsOf(e, IF big THEN 0 ELSE 10, LitsBetween(e, 1, IF big THEN 6 ELSE 14))
 
 \* a value without encoding: its unchecked layout (when there is one) must not decode to it
 NegInputs(raw) == IF raw.ok THEN {In("raw", 0, 0, raw.b), In("rawtrail", 0, 0, raw.b \o Trail)} ELSE {}
